@@ -26,7 +26,8 @@
     `…_as_extracted` (fixes/C19-3): the advancing overload on a planner without a tree.
   * `nodes_hold_particles`, `advance_promotes_existing_child` (MCTS / POMCP): every node below the root holds a particle, so
     POMCP's "lost track of the belief" restart is dead code and an advance on an existing child always keeps the subtree;
-    `R.RExP`, `R.advance_promotes_existing_child`: the same for rPOMCP's `isSampleBeliefEmpty()` restart.
+    `R.RExP`, `R.advance_promotes_existing_child`: the same for rPOMCP's `isSampleBeliefEmpty()` restart;
+    `R.RExt`, `R.rsim_ext`, `R.advance_extends_subtree`: rPOMCP simulations only extend the tree.
   * `ReachX`, `ReachX.inv`, `node_count_is_sum_x`, `v_is_mean_x`, `particles_consistent_x`: histories in which
     `setExploration` changes the bonus between calls keep every invariant.
   * `rup_replaces_value`: the datapoint a node passes upwards is the one that turns a mean of `N - 1` copies of the old
@@ -202,6 +203,16 @@ theorem advance_before_first_call_as_extracted {m : Mdl} (a k : Nat) (parts : Li
 
 example : ∃ m : Mdl, m.advGuard = true ∧ (call m Tree.init (Op.adv 1 0 [0] 2 2 0) []).isSome = true :=
   ⟨{ exM with advGuard := true }, rfl, by decide⟩
+
+/-- **horizon 1**: with the repaired rollout length every simulation of a `sampleAction(·, 1)` call is exactly one call of
+    the generative model (no descent, no rollout: `depth + 1 < maxDepth_` is false at the root) -/
+theorem horizon_one_single_call {m : Mdl} (hoff : m.rollOff ≤ -1) {t t' : Tree} {p : Path} {s : Nat} {used : List Step} {r : Rat}
+    (h : Sim m 1 t p s 0 used t' r) : used.length = 1 := by
+  have h1 := h.length_le (by omega)
+  have h0 : m.overrun = 0 := by unfold Mdl.overrun; omega
+  have h2 : 1 ≤ used.length := by cases h <;> simp
+  omega
+
 
 /-! ### Every node below the root holds a particle: the "lost track of the belief" restart of POMCP is dead code -/
 
@@ -1384,6 +1395,145 @@ theorem advance_promotes_existing_child {m : Mdl} {k : Nat} {t t0 : RTree} (h : 
   | some t1 =>
     simp [hal] at hp
     rw [hp.1]
+
+
+/-! ### rPOMCP: simulations only extend the tree (what the `advance_lost_subtree` clause on the dumps checks) -/
+
+/-- `t'` extends `t`: no node disappears, no visit count, action count or particle count goes down -/
+structure RExt (t t' : RTree) : Prop where
+  ex : ∀ q, t.ex q = true → t'.ex q = true
+  nN : ∀ q, t.nN q ≤ t'.nN q
+  aN : ∀ q a, t.aN q a ≤ t'.aN q a
+  tb : ∀ q s, t.tb q s ≤ t'.tb q s
+
+theorem RExt.refl (t : RTree) : RExt t t := ⟨fun _ h => h, fun _ => Nat.le_refl _, fun _ _ => Nat.le_refl _, fun _ _ => Nat.le_refl _⟩
+
+theorem RExt.trans {a b c : RTree} (h1 : RExt a b) (h2 : RExt b c) : RExt a c :=
+  ⟨fun q h => h2.ex q (h1.ex q h), fun q => Nat.le_trans (h1.nN q) (h2.nN q), fun q x => Nat.le_trans (h1.aN q x) (h2.aN q x),
+   fun q s => Nat.le_trans (h1.tb q s) (h2.tb q s)⟩
+
+theorem RExt.of_eq {t t1 : RTree} (e1 : t1.ex = t.ex) (e2 : t1.nN = t.nN) (e3 : t1.aN = t.aN) (e4 : t1.tb = t.tb) : RExt t t1 :=
+  ⟨fun q h => by rw [e1]; exact h, fun q => by rw [e2], fun q a => by rw [e3], fun q s => by rw [e4]⟩
+
+theorem rdown_ex_mono (m : Mdl) (t : RTree) (p : Path) (st : Step) : ∀ q, t.ex q = true → (rdown m t p st).1.ex q = true := by
+  intro q hq
+  unfold rdown RTree.updBK
+  simp only
+  split
+  · by_cases hqc : q = p ++ [(st.a, st.o)]
+    · simp [upd, hqc]
+    · simpa [upd, hqc] using hq
+  · exact hq
+
+theorem RExt.rdown (m : Mdl) (t : RTree) (p : Path) (st : Step) : RExt t (rdown m t p st).1 := by
+  obtain ⟨d1, d2, _, _, _⟩ := rdown_part_fields m t p st
+  obtain ⟨_, _, _, d4⟩ := rdown_fields m t p st
+  refine ⟨rdown_ex_mono m t p st, fun q => ?_, fun q a => by rw [d4], fun q s => ?_⟩
+  · rw [d1]
+    by_cases hq : q = p
+    · subst hq; simp [upd]
+    · simp [upd, hq]
+  · rw [d2]
+    by_cases hq : q = p ++ [(st.a, st.o)]
+    · subst hq
+      by_cases hs : s = st.s1
+      · subst hs; simp [upd, updN]
+      · simp [upd, updN, hs]
+    · simp [upd, hq]
+
+theorem RExt.rup (m : Mdl) (k : Nat) (t : RTree) (p : Path) (a depth : Nat) (imm : Rat) : RExt t (rup m k t p a depth imm).1 := by
+  obtain ⟨u1, _, _, u4⟩ := rup_fields m k t p a depth imm
+  obtain ⟨_, u2, _, _, _⟩ := rup_part_fields m k t p a depth imm
+  refine ⟨fun q h => by rw [rup_ex_fields]; exact h, fun q => by rw [u1], fun q b => ?_, fun q s => by rw [u2]⟩
+  rw [u4]
+  by_cases hq : q = p
+  · subst hq
+    by_cases hb : b = a
+    · subst hb; simp [upd, updN]
+    · simp [upd, updN, hb]
+  · simp [upd, hq]
+
+theorem RExt.rleaf (t : RTree) (child : Path) (recV : Bool) (imm : Rat) : RExt t (rleaf t child recV imm) := by
+  refine ⟨fun _ h => h, fun q => ?_, fun _ _ => Nat.le_refl _, fun _ _ => Nat.le_refl _⟩
+  show t.nN q ≤ upd t.nN child (t.nN child + 1) q
+  by_cases hq : q = child
+  · subst hq; simp [upd]
+  · simp [upd, hq]
+
+/-- **rPOMCP: every `simulate` call only extends the tree** -/
+theorem rsim_ext (m : Mdl) (H k : Nat) : ∀ (fuel : Nat) (t : RTree) (p : Path) (s depth : Nat) (log : List Step)
+    (t' : RTree) (r : Rat) (rest : List Step),
+    rsim m H k fuel t p s depth log = some (t', r, rest) → RExt t t' := by
+  intro fuel
+  induction fuel with
+  | zero => intro t p s depth log t' r rest h; simp [rsim] at h
+  | succ fuel ih =>
+    intro t p s depth log t' r rest h
+    cases log with
+    | nil => simp [rsim] at h
+    | cons st log =>
+      simp only [rsim] at h
+      split at h
+      · split at h
+        · simp at h
+        · rename_i t3 imm log' hr
+          simp at h
+          obtain ⟨rfl, rfl, rfl⟩ := h
+          refine RExt.trans ?_ (RExt.rup m k t3 p st.a depth imm)
+          refine RExt.trans (RExt.rdown m t p st) ?_
+          split at hr
+          · split at hr
+            · simp at hr
+            · rename_i t2 hal
+              obtain ⟨a1, a2, _, _⟩ := ralloc_spec hal
+              obtain ⟨_, a3, _, _, _⟩ := ralloc_part hal
+              exact (RExt.of_eq (ralloc_ex hal) a1 a2 a3).trans (ih _ _ _ _ _ _ _ _ hr)
+          · simp at hr
+            obtain ⟨rfl, _, rfl⟩ := hr
+            exact RExt.rleaf _ _ _ _
+      · simp at h
+
+theorem rrunSims_ext (m : Mdl) (H k : Nat) : ∀ (n : Nat) (t : RTree) (log : List Step) (t' : RTree) (rest : List Step),
+    rrunSims m H k n t log = some (t', rest) → RExt t t' := by
+  intro n
+  induction n with
+  | zero => intro t log t' rest h; simp [rrunSims] at h; obtain ⟨rfl, _⟩ := h; exact RExt.refl _
+  | succ n ih =>
+    intro t log t' rest h
+    cases log with
+    | nil => simp [rrunSims] at h
+    | cons st log =>
+      simp only [rrunSims] at h
+      split at h
+      · split at h
+        · simp at h
+        · rename_i t1 r log' hsim
+          exact (rsim_ext m H k _ _ _ _ _ _ _ _ _ hsim).trans (ih _ _ _ _ h)
+      · simp at h
+
+/-- **rPOMCP advance_extends_subtree**: after any history, `sampleAction(a, o, horizon)` on an existing `(a, o)` child, with any
+    number of iterations: the resulting tree extends the re-rooted `(a, o)` subtree of the old tree (every node still there
+    under the same path; visit counts, action counts and particle counts at least as large). -/
+theorem advance_extends_subtree {m : Mdl} {k : Nat} {t t' : RTree} (h : RReach m k t) {a o : Nat} {parts : List Nat} {nA H iters : Nat}
+    {log rest : List Step} (ha : a < t.nA []) (hex : t.ex [(a, o)] = true)
+    (hc : rcall m k t (Op.adv a o parts nA H iters) log = some (t', rest)) : RExt (t.reroot (a, o)) t' := by
+  unfold rcall at hc
+  split at hc
+  · simp at hc
+  · rename_i t0 H' iters' hp
+    have hal := advance_promotes_existing_child h ha hex hp
+    have h0 : RExt (t.reroot (a, o)) t0 := by
+      obtain ⟨a1, a2, _, _⟩ := ralloc_spec hal
+      obtain ⟨_, a3, _, _, _⟩ := ralloc_part hal
+      exact RExt.of_eq (ralloc_ex hal) a1 a2 a3
+    split at hc
+    · simp at hc; obtain ⟨rfl, _⟩ := hc; exact h0
+    · split at hc
+      · simp at hc
+      · rename_i t1 rest' hr
+        simp at hc
+        obtain ⟨rfl, _⟩ := hc
+        exact h0.trans ((rrunSims_ext m H' k _ _ _ _ _ hr).trans (RExt.of_eq rfl rfl rfl rfl))
 
 
 /-! hypotheses are satisfiable: a concrete rPOMCP history (fresh call with two simulations at horizon 2) -/
